@@ -168,12 +168,13 @@ int main(int argc, char ** argv)
       return res.Write(args);
    }
 
-   std::vector<Config> cfgs;
+   std::vector<Config> cfgs; size_t numNamed = 0;
    if (args.kv.count("config")) cfgs.push_back(ConfigFromString(args.kv["config"]));
    else {
       // named configurations first (simplest first), then the script space
       const char * named[] = {"pw=1;r.|w.", "pw=0;r.|w.", "pw=1;rw..|r.|w.", "pw=0;rw..|r.|w.", "pw=1;rW..|r.|w.", "pw=1;rT..|r.|w.", "pw=1;w.|T.|r.", "pw=1;w.|T.|w.", "pw=0;w.|T.|r.", "pw=1;wi.|T.|w.", "pw=1;wi.|T.|r.", "pw=0;wi.|T.|w.", "pw=1;wi.|t.|w.", "pw=1;ri.|T.|w.", "pw=1;ri.|T.|T.", "pw=1;wi.|rT..|r.", "pw=1;wi.|w.|r.|r.", "pw=0;wi.|r.|w.|r.", "pw=1;ri.|rw..|w.", "pw=1;wrv.|w.|r.", "pw=1;rwv.|w.|r.", "pw=0;wrv.|w.|r.", "pw=1;wriv.|w.|r.", "pw=1;wrv.|T.|t.", "pw=1;rw..|rw..", "pw=1;rw..|rw..|r.", "pw=1;r.|r.|w.|w.", "pw=1;r.x|w.x", "pw=0;rw..x|w.x", "pw=1;rr..|ww..|t.", "pw=0;rT..|rT..|w."};
       for (size_t i = 0; i < sizeof(named) / sizeof(named[0]); i++) cfgs.push_back(ConfigFromString(named[i]));
+      numNamed = cfgs.size();
       AddMultisets(cfgs, 2, 0);   // every pair of scripts
       if (args.Thorough()) AddMultisets(cfgs, 3, 0); else AddMultisets(cfgs, 3, 1);
    }
@@ -186,7 +187,8 @@ int main(int argc, char ** argv)
       schedx::Options o2 = opt; if (pass == 1) o2.bound = opt.bound + 1;
       for (size_t i = 0; i < cfgs.size(); i++) {
          const Config cfg = cfgs[i]; const std::string cs = ConfigToString(cfg) + verif::Fmt(";bound=%d", o2.bound);
-         if (pass == 1) { bool special = false; for (size_t k = 0; k < cfg.scripts.size(); k++) if (IsUpgradeScript(cfg.scripts[k])) special = true; if (!special || cfg.scripts.size() > 3) continue; }
+         // second pass (bound+1): the named configurations (first numNamed entries) and every PAIR of scripts -- sized to complete inside the thorough deadline
+         if (pass == 1 && !(i < numNamed || cfg.scripts.size() == 2)) continue;
          if (!seenCfg.insert(cs).second) continue;
          if (verif::NowS() > deadline) { capped = true; break; }
          schedx::Explore("rw", ConfigToString(cfg), o2, args, res, deadline);
